@@ -19,8 +19,8 @@ func init() {
 	})
 	register(Rule{
 		Name:  "WRITESET",
-		Props: []string{"C17", "C19"},
-		Doc:   "the writes reachable from Mixin touch only the primary; those reachable from FixEmptyResponseDescriptions touch only response descriptions",
+		Props: []string{"C17", "C19", "C01"},
+		Doc:   "the writes reachable from Mixin touch only the primary; those reachable from FixEmptyResponseDescriptions touch only response descriptions; those of Flatten attributed to its argument touch no member of an operation, path item, parameter, response, header or the info section",
 		Run:   writesetRules,
 	})
 }
@@ -135,7 +135,7 @@ func pureRules(c *Ctx) {
 		c.S.Undecided("C16", "PURE-FRESHRET", "floor", "-", fmt.Sprintf("only %d pattern/enum getters found (expected 10)", n))
 	}
 	// New writes only below the Spec it allocates: its result must be a fresh allocation
-	c.S.Decide(e.sum[newFn].returnsFresh, "C16", "PURE-NEWFRESH", newFn.QName(), c.P.Pos(newFn.Decl.Pos()),
+	c.S.Decide(e.sum[newFn].returnsNew, "C16", "PURE-NEWFRESH", newFn.QName(), c.P.Pos(newFn.Decl.Pos()),
 		"New returns a Spec allocated by the call", "New does not return a freshly allocated Spec: analyzers could share index state")
 }
 
@@ -204,6 +204,7 @@ func writesetRules(c *Ctx) {
 			c.S.Undecided("C17", "WRITESET", "floor", "-", fmt.Sprintf("only %d writes to the primary found (confirmed by hand: 40+)", nPrimary))
 		}
 	}
+	flattenWriteSet(c, e)
 	// ---- C19: FixEmptyResponseDescriptions writes only response descriptions (and writes back its range copies) ----
 	if fix := c.need("C19", "WRITESET", "", "FixEmptyResponseDescriptions"); fix != nil {
 		var bad []string
@@ -234,6 +235,54 @@ func writesetRules(c *Ctx) {
 		if n < 2 {
 			c.S.Undecided("C19", "WRITESET", "floor", "-", "fewer writes than confirmed by hand (3)")
 		}
+	}
+}
+
+// flattenWriteSet (C01, WRITESET/Flatten): "every path, operation, parameter, response and header is unchanged once
+// $refs are followed … the only additions are new definitions and the x-go-gen-location marker". Among the transitive
+// writes of Flatten that the effect summaries can attribute to its argument, none stores into a member of an
+// operation, a path item, the info section, a parameter, a response or a header other than through the expansion of
+// the dependency (spec.ExpandSpec) — schemas, $refs, extensions of schemas, the definitions and the two shared
+// sections are what Flatten rewrites. (Writes through values obtained by resolving a JSON pointer are decided by the
+// rewriter rules, not here.)
+func flattenWriteSet(c *Ctx, e *effEngine) {
+	flat := c.root("Flatten")
+	if flat == nil {
+		return
+	}
+	frozen := map[string]bool{"OperationProps": true, "PathItemProps": true, "InfoProps": true, "ParamProps": true, "ResponseProps": true, "HeaderProps": true, "ContactInfoProps": true, "TagProps": true, "SecuritySchemeProps": true}
+	allowedSwagger := map[string]bool{"Definitions": true, "Parameters": true, "Responses": true}
+	var bad []string
+	n := 0
+	for _, w := range e.sortedWrites(flat) {
+		if w.root != "param" || strings.HasPrefix(w.how, "ext:") {
+			continue
+		}
+		n++
+		fv := w.finalField()
+		if fv == nil {
+			continue
+		}
+		owner := core.OwnerStruct(c.P, fv)
+		short := owner[strings.LastIndex(owner, ".")+1:]
+		if !strings.Contains(owner, "go-openapi/spec.") {
+			continue
+		}
+		switch {
+		case frozen[short] && !core.IsSpecType(fv.Type(), "Schema") && !core.IsSpecType(core.Deref(fv.Type()), "Schema"):
+			bad = append(bad, short+"."+fv.Name()+": "+e.describe(w))
+		case short == "SwaggerProps" && !allowedSwagger[fv.Name()]:
+			bad = append(bad, short+"."+fv.Name()+": "+e.describe(w))
+		}
+	}
+	sort.Strings(bad)
+	c.S.Decide(len(bad) == 0, "C01", "WRITESET", "Flatten/only-schemas-and-definitions", c.P.Pos(flat.Decl.Pos()),
+		fmt.Sprintf("none of the %d transitive writes attributed to Flatten's argument stores into a member of an operation, path item, parameter, response, header or the info section", n),
+		"Flatten writes into a part of the document it must leave unchanged: "+strings.Join(bad, "; "))
+	if n < 20 {
+		// phases run through a table of function values are not followed by the effect summaries: the rule then sees
+		// fewer writes than there are — it still reports what it sees, and says so
+		c.S.Note("WRITESET/Flatten: only %d writes attributed to Flatten's argument (60+ on the pinned tree): phases reached through function values are not followed", n)
 	}
 }
 
